@@ -154,7 +154,8 @@ def run_case(wd, plugins, span_first=False, later_lives=()):
                             decos.add(pindex(kv.key[4:]))
                 lives_out.append(dict(loaded=loaded, called=called, sent=len(sent), decorations=sorted(decos),
                                       problems=problems,
-                                      resource_keys=sorted(k for k in cfg.resource.attributes.keys()
+                                      resource_keys=sorted(k for k in (cfg.resource.attributes.keys()
+                                                                      if cfg.resource is not None else [])
                                                            if k.startswith('plugin.'))))
             out.update(lives_out[0])
             out['lives'] = lives_out
@@ -213,6 +214,9 @@ CURATED = [
      dict(load='ok', order=0, roles=['metric', 'span'], faults=['close_span'])],
     [dict(load='ok', order=1, roles=['resource', 'decorate', 'log'], faults=['resource', 'decorate']),
      dict(load='inactive', order=0, roles=['decorate'], faults=[]), dict(load='ok', order=1, roles=['decorate', 'span'], faults=['create_span'])],
+    # a resource provider that fails (the second one, by returning something that is no Resource) between two healthy ones
+    [dict(load='ok', order=0, roles=['resource'], faults=[]), dict(load='ok', order=1, roles=['resource'], faults=['resource']),
+     dict(load='ok', order=2, roles=['resource', 'decorate', 'log'], faults=[])],
     [dict(load='ctor_fails', order=0, roles=['log'], faults=[]), dict(load='unimportable', order=0, roles=['log'], faults=[]),
      dict(load='ok', order=2, roles=['log', 'metric'], faults=['shutdown'])],
 ]
